@@ -95,7 +95,11 @@ class LabelFlow:
             for t in node.targets:
                 if isinstance(t, ast.Tuple) and is_unique_inverse(self.prog, self.fn, v) and len(t.elts) >= 2 and isinstance(t.elts[1], ast.Name):
                     if isinstance(t.elts[0], ast.Name):
+                        # the first output holds the (sorted) label *values*: as raw as the argument they were taken from
+                        src = self.status(v.args[0], st) if v.args else set()
                         st.pop(t.elts[0].id, None)
+                        if src:
+                            st[t.elts[0].id] = set(src)
                     st[t.elts[1].id] = {CANON}      # inverse indices of np.unique are canonical whatever the source
                 elif isinstance(t, ast.Name):
                     s = self.status(v, st)
